@@ -39,6 +39,20 @@ def main():
         out.append("| %s | %s | %s |" % (k["id"], esc(k["what"])[:420], esc(k.get("where", ""))[:160]))
     out.append("")
     out.append("### 10.4 Seeded changes (independent sub-agents) and which check catches them\n")
+    metas = []
+    for d in sorted(glob.glob(os.path.join(ROOT, "seeded", "*"))):
+        try:
+            metas.append(json.load(open(os.path.join(d, "meta.json"))))
+        except Exception:
+            pass
+    tot = len(metas)
+    caught = [m for m in metas if m.get("confirmed_by_integrator", {}).get("check_quick_result") == "caught"]
+    late = [m for m in caught if m.get("history")]
+    out.append("%d seeded changes are kept (each confirmed in a scratch worktree: builds, 21/21 tests pass, the demonstration fails with "
+               "the patch and passes without). %d are caught by the quick check of their property as it stands now; %d of those were "
+               "missed or only partly caught when first delivered and are caught since the check was strengthened (column *history*; the "
+               "builder was told the mechanism, never the patch or the demonstration); %d are not caught.\n"
+               % (tot, len(caught), len(late), tot - len(caught)))
     out.append("| seeded | property | what it breaks (needs) | result of `./check <prop> --tier quick` on the patched tree |")
     out.append("|---|---|---|---|")
     for d in sorted(glob.glob(os.path.join(ROOT, "seeded", "*"))):
